@@ -19,6 +19,7 @@ func ClientCredentialsExchange(w http.ResponseWriter, r *http.Request, exchanger
 	request, err := ParseClientCredentialsRequest(r, exchanger.Decoder())
 	if err != nil {
 		RequestError(w, r, err, exchanger.Logger())
+		return
 	}
 
 	validatedRequest, client, err := ValidateClientCredentialsRequest(r.Context(), request, exchanger)
